@@ -19,6 +19,28 @@ NA = {
            "(TBB/Gurobi/pybind11 headers absent, no libclang); a text proxy would be a frozen-fragment rule (DESIGN.md section 5)",
 }
 
+TECHNIQUE = {
+ "C01": "static analysis: CFG dominance of the availability guard over ledger writes, who-may-call over the whole repo, per-path effect bundles, guard algebra",
+ "C02": "static analysis: who-may-call, CFG edge-dominance of readiness over start, backward origin analysis of TASK_RELEASE tasks, typestate reachability",
+ "C03": "static analysis: write-site analysis of the clock, path enumeration of one simulate() iteration, linear-form checks of event times and Task.step",
+ "C04": "static analysis: per-path effect summaries of Worker mutators (allowed bundles), mutation->refusal reachability (exception safety), copy-completeness/aliasing analysis",
+ "C05": "static analysis: path enumeration of the next-scheduler routine (timeout dominance), event-time provability, exit-structure dominance, symbolic remaining time in Task.step",
+ "C06": "static analysis: finite-domain abstract interpretation of Task (typestate relation over 8x8 states), exhaustive product BFS, value flow of cancellation results",
+ "C07": "static analysis: path enumeration of the conditional branch (release counting), argument-role checks of the draw, loop/guard shape of submission-time resolution",
+ "C08": "static analysis: CSV row schema extraction (writer) vs reader column uses with a frozen role table, keyword/attribute agreement, counter site/guard analysis",
+ "C09": "static analysis: determinism lints - inter-procedural seed flow, uuid sources, seeding-order dominance, set-iteration (hash order) consumers, wall-clock taint",
+ "C10": "static analysis: inter-procedural LIVE/SCRATCH taint (effect analysis) with a positive fixture, decision counting by path enumeration, constraint-shape normalisation",
+ "C11": "static analysis: must-call dominance before the solve, linear normalisation of precedence constraints, indicator-pair complementarity",
+ "C12": "static analysis: guard-algebra equivalence of the four admission tests, linear-expression builder model of the ILP deadline constraint, path-condition entailment of cell gating",
+ "C13": "static analysis: sort-key normalisation (through partial/attrgetter/lambda), flag-aware path enumeration of the greedy placement loop",
+ "C14": "static analysis: path-condition entailment (cell gating exactness), occupancy-window entailment in both directions, sibling cross-check, indicator gap analysis",
+ "C15": "static analysis: guard dominance and shape checks of the Clockwork queues (profile guard, batch slicing, removal, availability and expiry predicates)",
+ "C16": "static analysis: post-dominance of reheapify after re-timing, heap-list encapsulation, path-wise check of the ordering key, enum priority relations, EventTime operator shapes",
+ "C17": "static analysis: worklist-discipline rule for traversals, structural checks of topological sort / longest path / depth / dependency",
+ "C18": "static analysis: partial evaluation of the offer selection for every TaskState, polarity analysis of lookahead/release_taskgraphs, call-site parameter agreement",
+ "C19": "static analysis: cross-iteration reaching definitions into constructors, dispatch/keyword agreement, configuration type agreement, closed-loop budget dominance",
+}
+
 checks = []
 not_applicable = []
 fix_commits = []
@@ -42,14 +64,17 @@ for pid in sorted(TITLES):
         "evidence_file": f"/verif/evidence/{pid}.json",
         "replay_cmd_template": "cat {path}",
         "engine": "sa",
-        "technique": getattr(mod, "TECHNIQUE", "static analysis: custom AST/CFG/dataflow rules over the repository source"),
+        "technique": TECHNIQUE.get(pid, "static analysis: custom AST/CFG/dataflow rules over the repository source"),
         "level_claimed": {
             "category": "other",
-            "text": getattr(mod, "LEVEL_TEXT", "") or (
-                "Static analysis of the current source: every structural clause listed in DESIGN.md for this property "
-                "is decided on all paths of the anchored functions (dominance, typestate, effect, who-may-call, "
-                "writer/reader agreement). It decides those necessary structural clauses, not the run-time behaviour "
-                "as a whole; the undecided remainder is stated in the evidence explanation."),
+            "text": (
+                "Static analysis of the repository's current source (never executed): the structural clauses of this property "
+                "named in level_note are decided for every path of the anchored functions. Each clause is a necessary condition "
+                "of the behaviour (breaking it breaks the property for some input) and is insensitive to behaviour-preserving "
+                "rewrites (guards are compared as normalised formulas, anchors are found by role). It does not decide the "
+                "run-time behaviour as a whole: the undecided remainder is listed after 'NOT decided' in level_note. The "
+                "thorough tier additionally validates the checker itself: every listed source mutant must be reported and every "
+                "behaviour-preserving twin must stay silent."),
             "design_ref": f"DESIGN.md section 4, {pid}",
         },
         "level_note": getattr(mod, "EXPLANATION", ""),
